@@ -45,7 +45,14 @@ def DoStartNumber (fsm):
 def DoBuildNumber (fsm):
 
     ns = fsm.memory.pop()
-    ns = ns + fsm.input_symbol
+    if ns == '0':
+        # Leading zeros carry no value.
+        ns = ''
+    if len(ns) < 9:
+        # Nine digits are beyond any screen already, every user of the
+        # number clamps it; and int() refuses to convert a digit string
+        # of several thousand characters at all.
+        ns = ns + fsm.input_symbol
     fsm.memory.append (ns)
 
 def DoBackOne (fsm):
